@@ -417,7 +417,7 @@ class C19(PropertyCheck):
         fjobs, fwant = [], []
         pad_terms, pad_idx = [], []
         for i in range(150 if tier == 'quick' else 1500):
-            x = rng.choice([0, 1, 5, 42, 255, 1234567, -1, -42, -1234567, 2 ** 63, -(2 ** 63), 10 ** 20])
+            x = rng.choice([0, 1, 5, 42, 255, 1234567, -1, -42, -1234567, 2 ** 63, -(2 ** 63), 10 ** 20, -(10 ** 20), -(2 ** 64) - 1])
             align = rng.choice([None, None, '>', '<', '^', '='])
             fill = rng.choice([None, '*', '0', 'é', ' ']) if align else None
             sign = rng.choice([None, None, '+', '-', ' '])
